@@ -2,6 +2,7 @@ package ply
 
 import (
 	"errors"
+	"fmt"
 	"strconv"
 )
 
@@ -12,11 +13,19 @@ type listAsciiPropertyReader struct {
 }
 
 func (lpr *listAsciiPropertyReader) Read(line []string) (offset int, err error) {
+	if len(line) == 0 {
+		return -1, fmt.Errorf("list property %q is missing", lpr.property.PropertyName)
+	}
+
 	v, err := strconv.ParseInt(line[0], 10, 32)
 	if err != nil {
 		return -1, err
 	}
 	lpr.lastReadListSize = int32(v)
+
+	if lpr.lastReadListSize < 0 || len(line) < int(lpr.lastReadListSize)+1 {
+		return -1, fmt.Errorf("list property %q declares %d values but only %d are present", lpr.property.PropertyName, v, len(line)-1)
+	}
 
 	// Resize to fit contents
 	if len(lpr.buf) < int(lpr.lastReadListSize) {
